@@ -57,6 +57,7 @@ var props = map[string]propCfg{
 var (
 	fProp    = flag.String("prop", "C01", "property id")
 	fWorker  = flag.Bool("worker", false, "run as batch worker")
+	fChurn   = flag.Bool("churn", false, "run as the in-process queue churn worker (C09)")
 	fFrom    = flag.Int("from", 0, "first program index")
 	fTo      = flag.Int("to", 0, "one past the last program index")
 	fOut     = flag.String("out", "", "worker result file")
@@ -263,6 +264,10 @@ func main() {
 		worker(o, cfg)
 		return
 	}
+	if *fChurn {
+		churnWorker(o)
+		return
+	}
 	defer o.Cleanup()
 	if o.Replay != "" {
 		code := replay(o, prop)
@@ -444,6 +449,7 @@ func main() {
 		}
 	}
 	blkDone, blkPops, blkPushes := 0, 0, 0
+	var churn churnOut
 	if prop == "C09" {
 		var bdivs []seqrun.Div
 		var bnote string
@@ -455,6 +461,17 @@ func main() {
 		}
 		if bnote != "" {
 			inconclusive = bnote
+		}
+		var cdivs []seqrun.Div
+		var cnote string
+		churn, cdivs, cnote = churnPhase(o)
+		for _, d := range cdivs {
+			if _, ok := bySig[d.Sig]; !ok {
+				bySig[d.Sig] = d
+			}
+		}
+		if cnote != "" && inconclusive == "" {
+			inconclusive = cnote
 		}
 	}
 	tcpNote := ""
@@ -547,6 +564,7 @@ func main() {
 		ev.Coverage["blocking_scenarios"] = blkDone
 		ev.Coverage["blocking_pops"] = blkPops
 		ev.Coverage["blocking_pushes"] = blkPushes
+		ev.Coverage["inprocess_queue_churn"] = churn
 	}
 	ev.Coverage["tcp_replayed_programs"] = tcpProgs
 	ev.Coverage["tcp_replayed_commands"] = tcpSteps
